@@ -7,7 +7,7 @@
     [worker_pools s0] = the initial pools (they define which (resource, group, index) the worker owns:
     [in_universe]); [live_held live r g i] = fractions of index i (group g, resource r) held by the live
     allocations (a whole index counts FRACTIONS_PER_UNIT); [pools_free] = free fractions of that index. *)
-From HQ Require Import Base.Prelude Gen.Consts Alloc.Model Alloc.Spec Alloc.Lemmas Alloc.Group Alloc.Pool Alloc.Inv Alloc.System Alloc.Theorems Alloc.Mirror Alloc.MirrorSystem Alloc.Examples.
+From HQ Require Import Base.Prelude Gen.Consts Alloc.Model Alloc.Spec Alloc.Lemmas Alloc.Group Alloc.Pool Alloc.Inv Alloc.System Alloc.Theorems Alloc.Mirror Alloc.MirrorSystem Alloc.Complete Alloc.CompleteTight Alloc.Examples.
 Open Scope N_scope.
 
 (** No individual resource is ever held beyond 100 %, and nothing but the worker's own indices is held. *)
@@ -111,6 +111,20 @@ Theorem C04_claim_ok_sound : forall p p' rid rq ra,
      end.
 Proof. exact claim_ok_inv. Qed.
 
+(** The check is transparent: whatever the modelled claim functions (take_indices, take_fraction_index_or_split,
+    claim_scatter_from_groups incl. its sort, claim_compact_from_groups incl. its swap) compute on well-formed
+    pools passes [claim_ok] - so a model step is never rejected by the check itself (only for a witness the
+    model does not accept).  Not covered: `all` on a grouped resource (claim_all_from_groups). *)
+Theorem C04_gate_transparent_direct : forall (A : Type) p rid rq wit (k : pool -> ralloc -> res A),
+  gs_wf (pool_groups p) -> not_all_on_groups p rq ->
+  checked (pool_claim p rid rq wit) p rid rq k = (do x <- pool_claim p rid rq wit; k (fst x) (snd x)).
+Proof. exact @gate_transparent_direct. Qed.
+
+Theorem C04_gate_transparent_coupled : forall (A : Type) p rid rq mask wit (k : pool -> ralloc -> res A),
+  gs_wf (pool_groups p) ->
+  checked (claim_with_group_mask p rid rq mask wit) p rid rq k = (do x <- claim_with_group_mask p rid rq mask wit; k (fst x) (snd x)).
+Proof. exact @gate_transparent_coupled. Qed.
+
 (** clause of the property that is monitored on every run but not proved: `all` is granted only when
     everything of the resource is free *)
 Definition C04_all_only_when_free_full : Prop := forall d s0 ops s rq w s' al,
@@ -141,3 +155,5 @@ Print Assumptions C04_exact_amount.
 Print Assumptions C04_concise_mirrors.
 Print Assumptions C04_release_concise_no_panic.
 Print Assumptions C04_claim_ok_sound.
+Print Assumptions C04_gate_transparent_direct.
+Print Assumptions C04_gate_transparent_coupled.
